@@ -1,10 +1,8 @@
 // ---- prelude/bucketcommit.rs: what InnerBucket::{is_dirty, rebalance, spill} are written against (ASSUMED interface) ----
 // The open child buckets of a bucket: a hash map from name to handle.  Its iteration order is arbitrary but it lists every
 // open child once (`entries`).  The handles form a finite tree: a child's nesting measure is strictly below its parent's.
-pub type ChildEntry<'b> = (Seq<u8>, Rc<RefCell<InnerBucket<'b>>>);
+//@include prelude/bucket_children.rs
 impl<'b> BucketMap<'b> {
-    pub uninterp spec fn entries(&self) -> Seq<ChildEntry<'b>>;
-    pub uninterp spec fn child_bound(&self) -> nat;
     #[verifier::external_body]
     fn iter(&self) -> (r: BucketIter<'_, 'b>)
         ensures r.rest() == self.entries(), r.bound() == self.child_bound(),
@@ -41,10 +39,6 @@ impl<'x, 'b> BucketValues<'x, 'b> {
             old(self).rest().len() > 0 ==> (r matches Some(c) && *c == old(self).rest()[0].1
                 && final(self).rest() == old(self).rest().drop_first() && (**c).cur().depth@ < old(self).bound() && bucket_wf((**c).cur())),
     { unimplemented!() }
-}
-// structural invariant of a bucket handle (ASSUMED of every handle the map hands out; kept by the functions under contract)
-spec fn bucket_wf(b: InnerBucket) -> bool {
-    b.buckets.child_bound() <= b.depth@ && b.meta.next_int < u64::MAX && children_have_entries(b)
 }
 // the headers collected from the children: name -> header (stand-in for the local HashMap<Bytes, BucketMeta>)
 #[verifier::external_body]
